@@ -39,7 +39,7 @@ def check_one(path, name, line, budget):
     for l in out.splitlines():
         if 'error:' in l:
             status = 'counterexample'
-            m = re.search(r'when calling (\w+)\((.*)\)(?: \(which (?:returns|raises))', l)
+            m = re.search(r'when calling (\w+)\((.*?)\)(?: \(which (?:returns|raises)|\s*$)', l)
             cex = dict(line=l.strip()[:600], call=(m.group(1), m.group(2)) if m else None)
             break
         if 'Confirmed over all paths' in l:
